@@ -1,13 +1,17 @@
 use crate::e2e;
-pub fn run(_: &[String]) -> i32 {
-    let bin = std::path::PathBuf::from("/verif/.scratch/tmp/chain");
-    let mut s = e2e::launch(&bin, &[]).unwrap();
+pub fn run(args: &[String]) -> i32 {
+    let bin = e2e::compile("/verif/.scratch/c10", "sigdebuggee", crate::leg_c10::DEBUGGEE, &[], None).unwrap();
+    let mut s = e2e::launch(&bin, &["2".to_string()]).unwrap();
     s.dbg.set_breakpoint_at_fn("anchor").unwrap();
     s.dbg.start_debugee().unwrap();
-    let bt = s.dbg.backtrace(s.pid_now()).unwrap();
-    println!("frames: {}", bt.len());
-    for (k, f) in bt.iter().enumerate().take(22) {
-        println!("frame {k}: {:?} ip={:#x}", f.func_name, f.ip.as_usize());
+    let pid = s.pid_now();
+    for a in args { let sig: i32 = a.parse().unwrap(); unsafe { libc::kill(pid.as_raw(), sig) }; }
+    for _ in 0..12 {
+        let r = s.dbg.continue_debugee_with_reason();
+        println!("cont: {:?}", r.as_ref().map(|r| format!("{r:?}")).map_err(|e| e.to_string()));
+        if matches!(r, Ok(bugstalker::debugger::StopReason::DebugeeExit(_))) || r.is_err() { break; }
     }
+    std::thread::sleep(std::time::Duration::from_millis(50));
+    println!("{}", s.stdout());
     0
 }
